@@ -12,7 +12,10 @@ pub fn one_case(tag: &str, id: &str, r: &mut Rng, max_ops: u64, snaps: bool) -> 
     let c0_len = *r.pick(&[0u64, 1, 5, 17, 64, 200]);
     let c0 = r.bytes(c0_len as usize);
     let start = if r.chance(1, 3) { c0_len } else { r.below(c0_len + 1) };
-    let mut dest = RecDest::new(c0.clone(), start);
+    // … possibly far into a (sparse) file: offsets at and beyond 4 GiB. (Side stream: the id decides.)
+    let mut rb = Rng::new(id.bytes().fold(0xC09u64, |h, b| h.wrapping_mul(1099511628211).wrapping_add(b as u64)));
+    let base = if rb.chance(1, 5) { *rb.pick(&[(1u64 << 32) - 8, 1u64 << 32, (1u64 << 32) + 0x2000, (1u64 << 33) + 5, 1u64 << 40]) } else { 0 };
+    let mut dest = RecDest::new(c0.clone(), start).at_base(base);
     dest.snap = snaps;
     // script: mostly fault free
     let mut script_s = Vec::new();
@@ -108,11 +111,11 @@ pub fn one_case(tag: &str, id: &str, r: &mut Rng, max_ops: u64, snaps: bool) -> 
     }
     std::panic::set_hook(prev_hook);
     let mut line = format!(
-        "{} {} c0={} start={} pre={} n={} script={} ops={} result={} final={} pos={} calls={} image={} log={}",
-        tag, id, hex(&c0), start, hex(&pre), nslots,
+        "{} {} c0={} start={} base={}{} pre={} n={} script={} ops={} result={} final={} pos={} calls={} image={} log={}",
+        tag, id, hex(&c0), start, base, if dest.below { ".BELOW" } else { "" }, hex(&pre), nslots,
         if script_s.is_empty() { "-".to_string() } else { script_s.join(",") },
         if ops.is_empty() { "-".to_string() } else { ops.join(";") },
-        result, hex(&dest.content), dest.pos, dest.calls, hex(&image),
+        result, hex(&dest.content), dest.rel_pos(), dest.calls, hex(&image),
         if dest.log.is_empty() { "-".to_string() } else { dest.log.join(",") }
     );
     if snaps {
